@@ -494,7 +494,17 @@ def run_evqe(setup: dict):
     crit = None if setup.get("criterion") is None else sk.ScriptedCriterion(setup["criterion"], rec, reg)
     build = sk.build_package_solver if setup.get("family") == "package" else sk.build_evqe
     solver, call, parts = build(setup, crit)
-    sk.instrument_solver(solver, rec, reg)
+    # a real run is finite: every configured limit bounds the number of generations, hence the number of applications
+    n_ops = len(solver.configuration.evolutionary_operators)
+    G = setup.get("max_generations")
+    bounds = []   # generations each configured limit allows at most (selection reports >= 2 evaluations per generation)
+    if G is not None:
+        bounds.append(max(G, 0))
+    if setup.get("max_evals") is not None:
+        bounds.append(max(setup["max_evals"], 0) // 2 + 1)
+    if setup.get("criterion") is not None and True in setup["criterion"]:
+        bounds.append(setup["criterion"].index(True) + 1)
+    sk.instrument_solver(solver, rec, reg, max_starts=n_ops * (min(bounds) + 2) if bounds else None)
     out = []
     try:
         for which, problem in enumerate([None] + list(setup.get("more", []))):
@@ -733,7 +743,11 @@ def evqe(ctx, pid, setup, glits, kept, strict_multi):
     for obs, case, extra in solves:
         out = obs["outcome"]
         nth = "" if extra["which"] == 0 else f" (solve #{extra['which'] + 1} with the same solver object)"
-        if "err" in out and out["err"] != NOTHING:
+        if out.get("err") == "RunawayLoop":
+            ctx.violation("oracle", "loop-does-not-terminate", f"the solve did not stop: {out.get('msg')} although its limits (max_generations={setup.get('max_generations')}, "
+                          f"max_circuit_evaluations={setup.get('max_evals')}, criterion={setup.get('criterion')}) must have ended it{nth}", replay,
+                          detail=dict(items=_trim(obs["items"]), outcome=out, solve=extra["which"]))
+        elif "err" in out and out["err"] != NOTHING:
             ctx.violation("oracle", f"unexpected-exception-{out['err']}", f"EVQE solve raised {out['err']}: {out.get('msg')}{nth}", replay)
         lim = limits_of(case)
         if pid == "C05":
